@@ -116,6 +116,9 @@ pub struct Program {
     /// into a full tuple pattern without type inference
     #[serde(default)]
     pub tuple_vars: Vec<(String, usize)>,
+    /// extra text (imports of generated modules) printed after the base preamble
+    #[serde(default)]
+    pub extra_preamble: String,
     pub body: Option<Expr>,
 }
 
